@@ -276,6 +276,7 @@ def run_history(run, cls, ops, wire=False, label="random", check_every=True):
     w = None
     if wire:
         lan = FaultNet("lan", Plan())
+        lan.frame_cap = 10 ** 9
         dev = ServiceDevice(lan, 5)
         dev.app.add_object(obj)
         client = SyncClient(lan, 1)
